@@ -642,3 +642,40 @@ fn c07_directory_sync_makes_a_rename_durable() {
 fn c07_directory_sync_makes_a_remove_durable() {
     dir_sync_step(false);
 }
+
+// sync steps with ONE pending operation (two pending operations had no verdict, see above)
+// @verif id=C07 tier=unshipped role=sync_file_step timeout=1200 mem=16
+#[kani::proof]
+#[kani::unwind(10)]
+fn c07_sync_all_makes_one_pending_write_durable() {
+    let ab: [u8; 2] = kani::any();
+    let xy: [u8; 2] = kani::any();
+    let mut fs = durable_f_orphan_g(&ab, &xy, FsConfig::default());
+    fs.pending.push(write_op("/f", 0, &xy));
+    assert!(fs.sync_file(p("/f")).is_ok());
+    assert!(fs.pending.is_empty());
+    fs.crash();
+    assert!(fs.file_exists(p("/f")) && fs.file_len(p("/f")) == 2);
+    let (n, buf) = read2(&fs, p("/f"));
+    assert!(n == 2 && buf[0] == xy[0] && buf[1] == xy[1], "contents at the last data sync");
+    kani::cover!(n == 2, "reached");
+    std::mem::forget(fs);
+}
+
+// @verif id=C07 tier=unshipped role=sync_dir_step timeout=1200 mem=16
+#[kani::proof]
+#[kani::unwind(10)]
+fn c07_directory_sync_makes_one_created_entry_durable() {
+    let mut fs = empty(FsConfig::default());
+    let d: [u8; 2] = kani::any();
+    fs.persisted_files.insert(pb("/f"), file_with(&d)); // data already synced
+    fs.pending.push(create_op("/f"));
+    assert!(fs.sync_dir(p("/"), T0).is_ok());
+    assert!(fs.synced_entries.contains(p("/f")) && fs.pending.is_empty());
+    fs.crash();
+    assert!(fs.file_exists(p("/f")));
+    let (n, buf) = read2(&fs, p("/f"));
+    assert!(n == 2 && buf[0] == d[0] && buf[1] == d[1]);
+    kani::cover!(n == 2, "reached");
+    std::mem::forget(fs);
+}
